@@ -467,3 +467,52 @@ def judge_dims(traces: list[dict[str, Any]], rep: Any = None) -> dict[str, str]:
     if len(got) != len(traces) or 'incomplete' in got.values():
         raise MachineryFailure(f'PauseSet: {len(got)} verdicts for {len(traces)} traces\n{r.out[-1500:]}')
     return {t['id']: got[i] for i, t in enumerate(traces, start=1)}
+
+
+# ---------------------------------------------------------------------------------------------------------------------
+# Behaviours chosen by TLC (-simulate on MC_Peering) replayed into the real operators: the environment's schedule
+# (who starts / stops / is killed between which ticks) comes from the specification, the run is validated like any other.
+
+def tlc_scenarios(seed: int, num: int, depth: int = 90) -> list[dict[str, Any]]:
+    from vf import tlaval
+    scratch = tempfile.mkdtemp(prefix='vf-psim-')
+    try:
+        src = open(os.path.join(tlc.SPEC, 'Sim_Peering.tla')).read().splitlines()
+        tick_line = next(i + 1 for i, l in enumerate(src) if '(Tick /\\ UNCHANGED' in l and l.strip().startswith('\\/'))
+        r = tlc.run('Sim_Peering', 'Sim_Peering.cfg', workers=1, simulate=f'file={scratch}/tr,num={num}', depth=depth, seed=seed, timeout=600)
+        out = []
+        for fn in sorted(f for f in os.listdir(scratch) if f.startswith('tr_')):
+            text = open(os.path.join(scratch, fn)).read()
+            blocks = re.split(r'\n(?=\\\* <)', text)
+            t = 0; prev = None; env: list[tuple] = []
+            for b in blocks:
+                m = re.match(r'\\\* <(\w+) line (\d+)', b)
+                if not m:
+                    continue
+                sm = re.search(r'/\\ st = (\[[^\]]*\])', b)
+                if not sm:
+                    continue
+                st = tlaval.parse(sm.group(1))
+                if m.group(1) == 'SimNext' and int(m.group(2)) == tick_line:
+                    t += 1
+                if prev is not None:
+                    for o in OPS:
+                        a, c = prev.get(o), st.get(o)
+                        if a == 'down' and c == 'up': env.append((t, 'start', o))
+                        elif a == 'up' and c == 'exiting': env.append((t, 'stop', o))
+                        elif a in ('up', 'exiting') and c == 'down' and not (a == 'exiting' and _withdrawn(b, o)): env.append((t, 'kill', o))
+                prev = st
+            if env:
+                out.append({'id': f'tlc-{seed}-{fn}', 'ops': list(OPS), 'prio': {'a': 1, 'b': 2, 'c': 3}, 'life': {o: 8 for o in OPS}, 'jit': {o: 5 for o in OPS},
+                            'env': env, 'end': t + 30, 'hdur': 0, 'daemon': False, 'from_tlc': True})
+        return out
+    finally:
+        shutil.rmtree(scratch, ignore_errors=True)
+
+
+def _withdrawn(block: str, o: str) -> bool:
+    m = re.search(r'/\\ wd = (\[[^\]]*\])', block)
+    if not m:
+        return False
+    from vf import tlaval
+    return bool(tlaval.parse(m.group(1)).get(o))
